@@ -4,9 +4,9 @@ use std::panic::{AssertUnwindSafe, catch_unwind, resume_unwind};
 
 use crate::api::*;
 use crate::arena::*;
-use crate::model::*;
-use crate::runner::panic_message;
-use crate::talloc::with_ctx;
+use bsv_core::model::*;
+use bsv_core::runner::panic_message;
+use bsv_core::talloc::with_ctx;
 
 /// Panicking methods reached through a trait object cannot tell "claimed" from "out of memory"
 /// and call handle_alloc_error (abort) in the pinned tree; see known_findings.json (C14).
@@ -166,7 +166,7 @@ impl<'c> Interp<'c> {
             let mut f = |inner: &mut dyn ApiMut| {
                 me.inner(inner, k, &w);
                 if exit_panic {
-                    resume_unwind(Box::new(crate::runner::Marker));
+                    resume_unwind(Box::new(bsv_core::runner::Marker));
                 }
             };
             match which {
@@ -184,6 +184,11 @@ impl<'c> Interp<'c> {
         let is_scope = matches!(which, Kind::Scoped | Kind::ScopedAligned);
         if is_scope {
             self.exit_scope(api.x_as_api(), &e, true, "C03/scope-restore", &what);
+            if which == Kind::ScopedAligned && self.fails.iter().any(|f| f.oracle == "C03/scope-restore") {
+                // "after scoped_aligned returns it is exactly the entry position" is C18's clause, too
+                let m = self.fails.iter().find(|f| f.oracle == "C03/scope-restore").map(|f| f.msg.clone()).unwrap_or_default();
+                self.fail("C18/scoped-aligned-restore", m);
+            }
             self.scope_was_interesting(&e, unwound, depth_inside);
         } else {
             // aligned / borrow_mut: allocations made inside stay live
@@ -217,7 +222,7 @@ impl<'c> Interp<'c> {
                     let mut f = |inner: &mut dyn ApiMut| {
                         me.inner(inner, k, &w3);
                         if exit_panic {
-                            resume_unwind(Box::new(crate::runner::Marker));
+                            resume_unwind(Box::new(bsv_core::runner::Marker));
                         }
                     };
                     if which == Kind::Scoped { api.x_scoped(&mut f) } else { api.x_scoped_aligned(n, &mut f) }
@@ -506,7 +511,7 @@ impl<'c> Interp<'c> {
                 me.depth -= 1;
                 me.nested_levels -= 1;
                 if exit_panic {
-                    resume_unwind(Box::new(crate::runner::Marker));
+                    resume_unwind(Box::new(bsv_core::runner::Marker));
                 }
             })
         });
